@@ -879,6 +879,10 @@ def _tensorclass(cls: T, *, frozen, shadow: bool) -> T:
         cls.__repr__ = _repr
     if "__len__" not in cls.__dict__:
         cls.__len__ = _len
+    if "__contains__" not in cls.__dict__:
+        cls.__contains__ = _contains
+    if "__delitem__" not in cls.__dict__:
+        cls.__delitem__ = _delitem
 
     cls.__eq__ = _eq
     cls.__ne__ = _ne
@@ -1932,6 +1936,17 @@ def _repr(self) -> str:
 def _len(self) -> int:
     """Returns the length of first dimension, if there is, otherwise 0."""
     return len(self._tensordict)
+
+
+def _contains(self, key: NestedKey) -> bool:
+    """Membership of a key, as for the underlying tensordict (fields holding a non-tensor value included)."""
+    if isinstance(key, str) and self._non_tensordict.get(key) is not None:
+        return True
+    return key in self._tensordict
+
+
+def _delitem(self, key: NestedKey) -> None:
+    self.del_(key)
 
 
 def _to_dict(self, *, retain_none: bool = True, convert_tensors: bool = False) -> dict:
